@@ -92,6 +92,7 @@ struct InvRecord {
   ProcResult res;
   std::vector<SpawnRec> spawns;
   bool external_edit = false;
+  bool editor_scheduled = false;
   std::set<std::string> edited_during;   // files edited while the build ran
   std::map<std::string, std::set<int>> read_by;   // file -> statements that read it in this invocation
   bool fault_fired = false;              // any injected fault (not buggify)
